@@ -97,16 +97,40 @@ fn make_entry(n: u64, kind: u64, defect: &str, custom: bool) -> EntryInitNew {
             }
         }
         _ => {
-            // an entry of the CUSTOM class (only valid once the schema additions were made)
+            // an entry of the RUNTIME-DEFINED classes (only valid once those schema entries are in force):
+            //   kvclass1 must {kvattr1 (utf8, single), name}  may {kvattr2 (utf8, multi), description}
+            //   kvclass2 must {kvattr3 (uint32, single)}      may {kvattr1}
+            //   kvattr4 (iname, multi) is in no class
+            let second = custom || defect == "illtyped" || (defect == "missing_must" && n % 2 == 0);
             v.push((Attribute::Class, Value::new_iutf8("kvclass1")));
             v.push((Attribute::Name, Value::new_iname(&name)));
-            if defect != "missing_must" {
+            if !(defect == "missing_must" && n % 2 == 1) {
                 v.push((Attribute::from("kvattr1"), Value::new_utf8s("x")));
+            }
+            if defect == "multi_single" {
+                v.push((Attribute::from("kvattr1"), Value::new_utf8s("x2")));
+            }
+            if second {
+                v.push((Attribute::Class, Value::new_iutf8("kvclass2")));
+                if defect == "illtyped" {
+                    v.push((Attribute::from("kvattr3"), Value::new_utf8s("notanumber")));
+                } else if defect != "missing_must" {
+                    v.push((Attribute::from("kvattr3"), Value::new_uint32(7)));
+                }
             }
             if custom {
                 v.push((Attribute::from("kvattr2"), Value::new_utf8s("y1")));
                 v.push((Attribute::from("kvattr2"), Value::new_utf8s("y2")));
             }
+            if defect == "not_allowed" {
+                v.push((Attribute::from("kvattr4"), Value::new_iname("nope")));
+            }
+            match defect {
+                "unknown_class" => v.push((Attribute::Class, Value::new_iutf8("kvnosuchclass"))),
+                "unknown_attr" => v.push((Attribute::from("kvnosuchattr"), Value::new_utf8s("z"))),
+                _ => {}
+            }
+            return ent(v);
         }
     }
     match defect {
@@ -131,6 +155,25 @@ fn make_entry(n: u64, kind: u64, defect: &str, custom: bool) -> EntryInitNew {
         _ => {}
     }
     ent(v)
+}
+
+/// modify lists aimed at entries of the runtime-defined class kvclass1
+fn make_custom_modlist(defect: &str, variant: u64) -> ModifyList<ModifyInvalid> {
+    let a = |s: &str| Attribute::from(s);
+    let m = match defect {
+        "missing_must" => vec![Modify::Purged(a("kvattr1"))],
+        "not_allowed" => vec![Modify::Present(a("kvattr4"), Value::new_iname("nope"))],
+        "multi_single" => vec![Modify::Present(a("kvattr1"), Value::new_utf8s("second"))],
+        "illtyped" => vec![Modify::Set(a("kvattr1"), kanidmd_lib::valueset::ValueSetIname::new("wrongtype"))],
+        "unknown_class" => vec![Modify::Present(Attribute::Class, Value::new_iutf8("kvnosuchclass"))],
+        "unknown_attr" => vec![Modify::Present(a("kvnosuchattr"), Value::new_utf8s("z"))],
+        _ => match variant % 3 {
+            0 => vec![Modify::Present(a("kvattr2"), Value::new_utf8s("more"))],
+            1 => vec![Modify::Present(Attribute::Class, Value::new_iutf8("kvclass2")), Modify::Purged(a("kvattr3")), Modify::Present(a("kvattr3"), Value::new_uint32(9))],
+            _ => vec![Modify::Purged(Attribute::Description), Modify::Present(Attribute::Description, Value::new_utf8s("custom changed"))],
+        },
+    };
+    ModifyList::new_list(m)
 }
 
 fn make_modlist(defect: &str, kind: &str) -> ModifyList<ModifyInvalid> {
@@ -167,22 +210,42 @@ fn schema_attr(name: &str, n: u64, syntax: &str, multi: bool) -> EntryInitNew {
         (Attribute::Syntax, Value::new_syntaxs(syntax).expect("syntax")),
     ])
 }
-fn schema_class() -> EntryInitNew {
-    ent(vec![
+fn schema_class(which: u64) -> EntryInitNew {
+    let mut v = vec![
         (Attribute::Class, EntryClass::Object.to_value()),
         (Attribute::Class, EntryClass::ClassType.to_value()),
-        (Attribute::Uuid, Value::Uuid(uuid_e(910))),
-        (Attribute::ClassName, Value::new_iutf8("kvclass1")),
+        (Attribute::Uuid, Value::Uuid(uuid_e(909 + which))),
+        (Attribute::ClassName, Value::new_iutf8(&format!("kvclass{which}"))),
         (Attribute::Description, Value::new_utf8s("kv custom class")),
-        (Attribute::Must, Value::new_iutf8("kvattr1")),
-        (Attribute::Must, Value::from(Attribute::Name)),
-        (Attribute::May, Value::new_iutf8("kvattr2")),
-        (Attribute::May, Value::from(Attribute::Description)),
-    ])
+    ];
+    if which == 1 {
+        v.push((Attribute::Must, Value::new_iutf8("kvattr1")));
+        v.push((Attribute::Must, Value::from(Attribute::Name)));
+        v.push((Attribute::May, Value::new_iutf8("kvattr2")));
+        v.push((Attribute::May, Value::from(Attribute::Description)));
+    } else {
+        v.push((Attribute::Must, Value::new_iutf8("kvattr3")));
+        v.push((Attribute::May, Value::new_iutf8("kvattr1")));
+    }
+    ent(v)
 }
+fn schema_entry(what: &str) -> EntryInitNew {
+    match what {
+        "attr1" => schema_attr("kvattr1", 1, "UTF8STRING", false),
+        "attr2" => schema_attr("kvattr2", 2, "UTF8STRING", true),
+        "attr3" => schema_attr("kvattr3", 3, "UINT32", false),
+        "attr4" => schema_attr("kvattr4", 4, "UTF8STRING_INAME", true),
+        "class2" => schema_class(2),
+        _ => schema_class(1),
+    }
+}
+const SCHEMA_ORDER: &[&str] = &["attr1", "attr2", "attr3", "attr4", "class1", "class2"];
 
 /// `live`: model entries currently live on A (biases the choice of targets only)
-pub fn random_op(rng: &mut Rng, live: &[u64], step: u64) -> J {
+pub fn random_op(rng: &mut Rng, live: &[u64], step: u64, dynlevel: bool) -> J {
+    if dynlevel {
+        return random_op_dyn(rng, live, step);
+    }
     let srv = if rng.chance(1, 2) { "A" } else { "B" };
     let absent: Vec<u64> = (1..=NE).filter(|n| !live.contains(n)).collect();
     let tgt = |rng: &mut Rng| -> u64 { if live.is_empty() || rng.chance(1, 8) { rng.range(1, NE) } else { *rng.pick(live) } };
@@ -204,10 +267,41 @@ pub fn random_op(rng: &mut Rng, live: &[u64], step: u64) -> J {
     match rng.below(100) {
         0..=21 => json!({"op":"create","srv":srv,"n":fresh(rng),"kind":rng.below(4),"defect":defect,"custom2":rng.chance(1,2)}),
         22..=54 => json!({"op":"modify","srv":srv,"n":tgt(rng),"defect":defect,"kind":*rng.pick(&["desc","addposix","shell","dropposix","custom","purge"]),"batch":rng.chance(1,3)}),
-        55..=62 => json!({"op":"schema","srv":"A","what":*rng.pick(&["attr1","attr2","class"])}),
+        55..=62 => json!({"op":"schema","srv":"A","what":*rng.pick(&["attr1","attr2","class1"])}),
         63..=69 => json!({"op":"split","n":tgt(rng)}),
         70..=86 => json!({"op":"repl","from": srv}),
         87..=93 => json!({"op":"recycle","srv":srv,"n":tgt(rng)}),
+        _ => json!({"op":"revive","srv":srv,"n":rng.range(1, NE)}),
+    }
+}
+
+/// histories on level-14 servers: runtime classes and attributes first (on both servers), then mostly entries of them
+fn random_op_dyn(rng: &mut Rng, live: &[u64], step: u64) -> J {
+    let srv = if rng.chance(1, 2) { "A" } else { "B" };
+    let absent: Vec<u64> = (1..=NE).filter(|n| !live.contains(n)).collect();
+    let tgt = |rng: &mut Rng| -> u64 { if live.is_empty() || rng.chance(1, 8) { rng.range(1, NE) } else { *rng.pick(live) } };
+    let fresh = |rng: &mut Rng| -> u64 { if absent.is_empty() || rng.chance(1, 8) { rng.range(1, NE) } else { *rng.pick(&absent) } };
+    let defect = *rng.pick(DEFECTS);
+    let k = SCHEMA_ORDER.len() as u64;
+    // step 0: a custom entry BEFORE its class exists (must be refused); then the schema on A and on B
+    if step == 0 {
+        return json!({"op":"create","srv":"A","n":1,"kind":3,"defect":"valid","custom2":false});
+    }
+    if step <= 2 * k {
+        let i = (step - 1) as usize;
+        return json!({"op":"schema","srv": if i < k as usize {"A"} else {"B"},"what":SCHEMA_ORDER[i % k as usize]});
+    }
+    if step <= 2 * k + 2 {
+        // one valid custom entry on each server to aim modifies at
+        return json!({"op":"create","srv": if step == 2 * k + 1 {"A"} else {"B"},"n":1,"kind":3,"defect":"valid","custom2":step == 2 * k + 1});
+    }
+    match rng.below(100) {
+        0..=29 => json!({"op":"create","srv":srv,"n":fresh(rng),"kind":3,"defect":defect,"custom2":rng.chance(1,2)}),
+        30..=37 => json!({"op":"create","srv":srv,"n":fresh(rng),"kind":rng.below(3),"defect":defect,"custom2":false}),
+        38..=72 => json!({"op":"cmodify","srv":srv,"n":tgt(rng),"defect":defect,"variant":rng.below(3),"batch":rng.chance(1,3)}),
+        73..=80 => json!({"op":"modify","srv":srv,"n":tgt(rng),"defect":defect,"kind":*rng.pick(&["desc","addposix","shell","dropposix","purge"]),"batch":rng.chance(1,3)}),
+        81..=86 => json!({"op":"schema","srv":srv,"what":*rng.pick(&["extend","attr4","class2"])}),
+        87..=94 => json!({"op":"recycle","srv":srv,"n":tgt(rng)}),
         _ => json!({"op":"revive","srv":srv,"n":rng.range(1, NE)}),
     }
 }
@@ -216,6 +310,10 @@ pub struct Pair {
     pub a: QueryServer,
     pub b: QueryServer,
     pub now: u64,
+    /// "dyn" histories: two INDEPENDENT servers kept at DOMAIN_LEVEL_14, where attributetype / classtype entries
+    /// stored in the database are loaded into the schema in force (from 1.11 on the schema is compiled in and
+    /// runtime classes never take effect); replication needs the target level, so these histories do not replicate
+    pub dynlevel: bool,
 }
 impl Pair {
     fn srv(&self, s: &str) -> &QueryServer {
@@ -253,23 +351,36 @@ async fn label(p: &Pair, op: &J) -> (bool, String) {
     let n = op["n"].as_u64().unwrap_or(1);
     let mut defect = op["defect"].as_str().unwrap_or("valid").to_string();
     let mut r = p.srv(srv).read().await.expect("read");
-    let (has_class, has_a2) = {
+    let (has_class, has_a2, has_second, has_a1) = {
         let s = r.get_schema();
-        (s.get_classes().contains_key("kvclass1"), s.get_attributes().contains_key(&Attribute::from("kvattr2")))
+        let at = |x: &str| s.get_attributes().contains_key(&Attribute::from(x));
+        (s.get_classes().contains_key("kvclass1"), at("kvattr2"), s.get_classes().contains_key("kvclass2") && at("kvattr3"), at("kvattr1"))
     };
     let target = r.internal_search_uuid(uuid_e(n)).ok();
     match op["op"].as_str().unwrap_or("") {
         "create" => {
             if op["kind"].as_u64().unwrap_or(0) % 4 == 3 && defect != "unknown_class" {
-                if !has_class {
+                if !has_class || !has_a1 {
                     defect = "unknown_class".into();
-                } else if op["custom2"].as_bool().unwrap_or(false) && !has_a2 && defect == "valid" {
+                } else if op["custom2"].as_bool().unwrap_or(false) && (!has_a2 || !has_second) && defect == "valid" {
                     defect = "unknown_attr".into();
                 }
             }
             // an entry with this uuid already stored (any liveness) is refused for another reason
             let exists = search_all(&mut r).iter().any(|e| e.get_uuid() == uuid_e(n));
             (!exists, defect)
+        }
+        "cmodify" => {
+            // aimed at a live entry of the runtime class; the "valid" variants need what they touch to be in the schema
+            let custom = target.as_ref().map(|t| t.attribute_equality(Attribute::Class, &PartialValue::new_iutf8("kvclass1"))).unwrap_or(false);
+            let mut applies = custom && has_class && has_a1;
+            if defect == "valid" {
+                applies = applies && match op["variant"].as_u64().unwrap_or(0) % 3 { 0 => has_a2, 1 => has_second, _ => true };
+            }
+            if defect == "multi_single" || defect == "missing_must" {
+                applies = applies && target.as_ref().map(|t| t.attribute_pres(Attribute::from("kvattr1"))).unwrap_or(false);
+            }
+            (applies, defect)
         }
         "modify" => {
             let kind = op["kind"].as_str().unwrap_or("desc");
@@ -329,23 +440,44 @@ pub async fn apply(p: &mut Pair, op: &J) -> (String, String, bool) {
             .await;
             (r, e2, false)
         }
+        "cmodify" => {
+            let ml = make_custom_modlist(&defect, op["variant"].as_u64().unwrap_or(0));
+            let batch = op["batch"].as_bool().unwrap_or(false);
+            let (r, e2) = write_op(p.srv(&srv), at, |w| {
+                if batch {
+                    let mlv = ml.validate(w.get_schema()).map_err(OperationError::SchemaViolation)?;
+                    let mut modset = BTreeMap::new();
+                    modset.insert(uuid_e(n), mlv);
+                    w.batch_modify(&BatchModifyEvent { ident: kvs::internal_identity(), modset })
+                } else {
+                    w.internal_modify_uuid(uuid_e(n), &ml)
+                }
+            })
+            .await;
+            (r, e2, false)
+        }
         "schema" => {
-            let e = match op["what"].as_str().unwrap_or("attr1") {
-                "attr1" => schema_attr("kvattr1", 1, "UTF8STRING", false),
-                "attr2" => schema_attr("kvattr2", 2, "UTF8STRING", true),
-                _ => schema_class(),
+            // schema ADDITIONS only: new attributes, new classes, one more `may` on an existing runtime class
+            let what = op["what"].as_str().unwrap_or("attr1").to_string();
+            let target = if p.dynlevel { p.srv(&srv) } else { &p.a };
+            let (r, e2) = if what == "extend" {
+                write_op(target, at, |w| w.internal_modify_uuid(uuid_e(910), &ModifyList::new_list(vec![Modify::Present(Attribute::May, Value::from(Attribute::LegalName))]))).await
+            } else {
+                let e = schema_entry(&what);
+                write_op(target, at, |w| w.internal_create(vec![e])).await
             };
-            let (r, e2) = write_op(&p.a, at, |w| w.internal_create(vec![e])).await;
             (r, e2, true)
         }
         // two individually valid edits of the same entry on the two servers that do not merge to a valid entry:
         // A drops the posix class (and what it allows), B sets an attribute only that class allows
+        "split" if p.dynlevel => ("refused".into(), "no replication below the target level".into(), false),
         "split" => {
             let (r1, e1) = write_op(&p.a, at, |w| w.internal_modify_uuid(uuid_e(n), &make_modlist("valid", "dropposix"))).await;
             p.now += 1;
             let (r2, e2) = write_op(&p.b, t(p.now), |w| w.internal_modify_uuid(uuid_e(n), &make_modlist("valid", "shell"))).await;
             (format!("{r1}+{r2}"), format!("{e1}|{e2}"), false)
         }
+        "repl" if p.dynlevel => ("refused".into(), "no replication below the target level".into(), false),
         "repl" => {
             let (from, to) = if op["from"].as_str().unwrap_or("A") == "A" { (&p.a, &p.b) } else { (&p.b, &p.a) };
             match sx::incremental(from, to, at).await {
@@ -365,11 +497,16 @@ pub async fn apply(p: &mut Pair, op: &J) -> (String, String, bool) {
     }
 }
 
-async fn new_pair() -> Pair {
+async fn new_pair(dynlevel: bool) -> Pair {
+    if dynlevel {
+        let a = sx::fresh_level(t(0), DOMAIN_LEVEL_14).await;
+        let b = sx::fresh_level(t(1), DOMAIN_LEVEL_14).await;
+        return Pair { a, b, now: 10, dynlevel };
+    }
     let a = sx::fresh(t(0)).await;
     let b = sx::fresh(t(1)).await;
     sx::refresh(&a, &b, t(2)).await.expect("refresh A->B");
-    Pair { a, b, now: 10 }
+    Pair { a, b, now: 10, dynlevel }
 }
 
 async fn state(p: &Pair, all: bool) -> J {
@@ -384,41 +521,45 @@ pub fn run(o: &Opts) -> i32 {
     let mut tr = Tracer::create(&out);
     let seed = o.seed();
     let nh = o.u64("histories", 6);
+    let ndyn = o.u64("dyn-histories", 2);
     let len = o.u64("len", 40);
     let replay: Option<Vec<J>> = o.get("replay").map(read_ndjson);
     let rt = runtime();
     rt.block_on(async {
-        let mut script: Vec<(u64, Option<Vec<J>>)> = Vec::new();
+        let mut script: Vec<(u64, bool, Option<Vec<J>>)> = Vec::new();
         if let Some(lines) = replay {
             for l in lines {
                 if l["a"] == "reset" {
-                    script.push((l["h"].as_u64().unwrap_or(0), Some(Vec::new())));
+                    script.push((l["h"].as_u64().unwrap_or(0), l["dyn"].as_u64().unwrap_or(0) == 1, Some(Vec::new())));
                 } else if l["a"] == "op" {
-                    if let Some((_, Some(v))) = script.last_mut() {
+                    if let Some((_, _, Some(v))) = script.last_mut() {
                         v.push(l["op"].clone());
                     }
                 }
             }
         } else {
-            for hi in 0..nh {
-                script.push((hi, None));
+            for hi in 0..(nh + ndyn) {
+                script.push((hi, hi >= nh, None));
             }
         }
-        for (hi, fixed) in script {
+        for (hi, dynlevel, fixed) in script {
             let mut rng = Rng::new(seed.wrapping_mul(7_000_003).wrapping_add(hi));
-            let mut p = new_pair().await;
-            tr.emit(&json!({"a":"reset","h":hi,"res":"ok","st":state(&p, true).await,"schema":schemas(&p).await}));
+            let mut p = new_pair(dynlevel).await;
+            tr.emit(&json!({"a":"reset","h":hi,"dyn": if dynlevel {1} else {0},"res":"ok","st":state(&p, true).await,"schema":schemas(&p).await}));
             let count = fixed.as_ref().map(|v| v.len() as u64).unwrap_or(len);
             let mut live: Vec<u64> = Vec::new();
             for step in 0..count {
                 let op = match &fixed {
                     Some(v) => v[step as usize].clone(),
-                    None => random_op(&mut rng, &live, step),
+                    None => random_op(&mut rng, &live, step, dynlevel),
                 };
                 let (applies, defect) = label(&p, &op).await;
                 let (res, err, sch) = apply(&mut p, &op).await;
                 // the whole database (built-in entries too) is re-validated whenever the schema may have changed
-                let st = state(&p, sch).await;
+                // (level-14 servers hold ~300 schema entries: there, the full dump is taken once the scripted schema
+                // prefix is complete and after every later schema change)
+                let full = sch && (!dynlevel || step >= 2 * SCHEMA_ORDER.len() as u64);
+                let st = state(&p, full).await;
                 live = st["A"]["ents"].as_array().map(|a| a.iter().filter(|e| e["m"] == 1 && e["live"] == "live")
                     .filter_map(|e| e["id"].as_str().and_then(|x| x[1..].parse::<u64>().ok())).filter(|n| *n <= NE).collect()).unwrap_or_default();
                 let mut line = json!({"a":"op","op":op,"applies": if applies {1} else {0},"defect":defect,"res":res,"err":err,"st":st});
